@@ -1292,12 +1292,15 @@ class Walker:
             want = (force or self.is_simple(f)) and rec < 1
         if _is_generator(f):
             want = False
+        opaque = [d for d in f.decorators if not _transparent_decorator(d)]
+        if opaque:
+            want = False  # a wrapping decorator (cache, retry, ...) changes what a call returns: never look through it
         if want and depth_ok:
             return self._inline(f, K, recv, args, kwargs, st, node, name)
         site = self.site(st, node)
         skip = f.cls is not None and f.kind in ("method", "classmethod")
         bound = self._bind_args(f, args, kwargs, skip_self=skip)
-        v = ("ret", f.qualname, site, ((recv,) if (recv is not None and f.cls is not None and f.kind == "method") else ())
+        v = ("ret", f.qualname + ("@" + "+".join(opaque) if opaque else ""), site, ((recv,) if (recv is not None and f.cls is not None and f.kind == "method") else ())
              + tuple(args) + tuple(v for _, v in sorted(kwargs.items())))
         self.emit(st, "call", node, name=f.src_name, target=f, recv=recv, args=args, kwargs=kwargs, inlined=False,
                   mutates=None, result=v, bound=bound, K=K.name if K else None)
@@ -1385,6 +1388,11 @@ class Walker:
             s.loops = saved_loops
             out.append((s, rv))
         return out
+
+
+def _transparent_decorator(d: str) -> bool:
+    return d in ("property", "classmethod", "staticmethod") or d.endswith(".setter") or d.endswith(".getter") \
+        or d.startswith("wraps(") or d.startswith("functools.wraps(") or d in ("hash_with_depth_bytes", "hash_with_depth_int")
 
 
 def _is_generator(f: FuncInfo) -> bool:
